@@ -17,7 +17,7 @@
 #define FS_FD_MAX  1024
 #define MAXNODES 512
 #define SIM_OPEN_MAX 1000
-typedef struct { char *path; unsigned char *data; size_t len; int mode; int isdir; int live; int is_temp; int by_spawn; } node_t;
+typedef struct { char *path; unsigned char *data; size_t len; int mode; int isdir; int live; int is_temp; int by_spawn; int dangling; } node_t;      /* dangling: a name the directory lists and stat() cannot follow (a symbolic link to nothing, a file removed between readdir() and stat()) */
 static node_t nodes[MAXNODES];
 static int nnodes;
 static char cwd[PATH_MAX] = "/";
@@ -36,6 +36,7 @@ static int mkstemp_base_mode = 0600;
 static int dir_grows;
 void simfs_set_mkstemp_mode(int m) { mkstemp_base_mode = m; }
 static int fdopen_fail_at, fchmod_fail_at, fdopen_calls, fchmod_calls;
+static int fdo_read_fail;
 int simenv_exit_called;
 
 static void norm(const char *in, char *out)
@@ -93,7 +94,7 @@ void simfs_reset(uint64_t seed)
     mkstemp_base_mode = 0600;
     dir_grows = 0;
     last_temp[0] = 0;
-    fdopen_fail_at = fchmod_fail_at = fdopen_calls = fchmod_calls = 0;
+    fdopen_fail_at = fchmod_fail_at = fdopen_calls = fchmod_calls = 0; fdo_read_fail = 0;
     simfs_add_dir("/");
     simfs_add_dir("/tmp");
 }
@@ -111,11 +112,12 @@ static int add_node(const char *path, const void *data, size_t len, int mode, in
     } else free(nodes[i].data);
     nodes[i].data = malloc(len + 1);
     if (len) memcpy(nodes[i].data, data, len);
-    nodes[i].len = len; nodes[i].mode = mode; nodes[i].isdir = isdir; nodes[i].live = 1; nodes[i].is_temp = 0; nodes[i].by_spawn = 0;
+    nodes[i].len = len; nodes[i].mode = mode; nodes[i].isdir = isdir; nodes[i].live = 1; nodes[i].is_temp = 0; nodes[i].by_spawn = 0; nodes[i].dangling = 0;
     return i;
 }
 int simfs_add_file(const char *path, const void *data, size_t len, int mode) { return add_node(path, data, len, mode, 0); }
 int simfs_add_dir(const char *path) { return add_node(path, "", 0, 0755, 1); }
+int simfs_add_dangling(const char *path) { int i = add_node(path, "", 0, 0777, 0); if (i >= 0) nodes[i].dangling = 1; return i; }
 int simfs_exists(const char *path) { return find_node(path) >= 0; }
 int simfs_mode(const char *path) { int i = find_node(path); return i < 0 ? -1 : nodes[i].mode; }
 void simfs_set_cwd(const char *path) { norm(path, cwd); }
@@ -167,6 +169,7 @@ FILE *sim_fopen(const char *path, const char *mode)
         simfs_fopen_failed++; fault_fired(FC_OPEN, FO_EMFILE); tr_printf("fopen %.80s -> EMFILE(limit)", path); errno = EMFILE; return NULL;
     }
     i = find_node(path);
+    if (i >= 0 && nodes[i].dangling) i = -1;
     if (i < 0) { simfs_fopen_failed++; tr_printf("fopen %.80s -> ENOENT", path); return NULL; }
     if (nodes[i].isdir) {
         /* fopen("r") of a directory succeeds on Linux, reads fail with EISDIR: model as empty unreadable stream */
@@ -194,9 +197,21 @@ long simfs_fd_size(int fd) { return (fd >= FS_FD_BASE && fd < FS_FD_MAX && fsfd[
 /* two calls that succeed in ordinary life and may legally fail: the k-th fdopen() of a run with EMFILE (no stream to be had), the
    k-th fchmod() with EPERM (a file system that does not do modes); 0 = never.  Set per run from the plan's knobs. */
 void simfs_set_call_failures(int fdopen_k, int fchmod_k) { fdopen_fail_at = fdopen_k; fchmod_fail_at = fchmod_k; fdopen_calls = fchmod_calls = 0; }
-typedef struct { FILE *inner; int fd; } fdo_t;
-static ssize_t fdo_read(void *c, char *b, size_t n) { fdo_t *f = c; size_t r = fread(b, 1, n, f->inner); return (ssize_t)r; }
-static int fdo_seek(void *c, off64_t *o, int w) { fdo_t *f = c; if (fseeko(f->inner, *o, w)) return -1; *o = ftello(f->inner); return 0; }
+typedef struct { FILE *inner; int fd; size_t given, total; } fdo_t;
+/* reading a temporary file back may fail like any other read (the disk, the quota, the server): fdo_read_fail 1 = the first read of
+   every stream made by fdopen() fails with EIO, 2 = the stream delivers half of the file and fails then; 0 = never */
+void simfs_set_fdopen_read_failure(int mode) { fdo_read_fail = mode; }
+static ssize_t fdo_read(void *c, char *b, size_t n)
+{
+    fdo_t *f = c;
+    size_t r;
+    if (fdo_read_fail == 1 || (fdo_read_fail == 2 && f->given >= f->total / 2)) { fault_fired(FC_READ, FO_EIO); probe_hit("temporary_file_read_back_failed"); tr_printf("read of fdopen stream fd%d -> EIO after %zu bytes", f->fd, f->given); errno = EIO; return -1; }
+    if (fdo_read_fail == 2 && n > f->total / 2 - f->given) n = f->total / 2 - f->given;
+    r = fread(b, 1, n, f->inner);
+    f->given += r;
+    return (ssize_t)r;
+}
+static int fdo_seek(void *c, off64_t *o, int w) { fdo_t *f = c; if (fseeko(f->inner, *o, w)) return -1; *o = ftello(f->inner); f->given = (size_t)*o; return 0; }
 static int fdo_close(void *c) { fdo_t *f = c; fclose(f->inner); fs_close(f->fd); free(f); return 0; }
 FILE *sim_fdopen(int fd, const char *mode)
 {
@@ -213,7 +228,7 @@ FILE *sim_fdopen(int fd, const char *mode)
     n = &nodes[fsfd[fd - FS_FD_BASE].node];
     f = calloc(1, sizeof(*f));
     f->inner = simfd_cookie_stream(n->data, n->len, 1, 0);
-    f->fd = fd;
+    f->fd = fd; f->total = n->len;
     tr_printf("fdopen fd%d len=%zu", fd, n->len);
     return fopencookie(f, "r", io);
 }
@@ -222,7 +237,7 @@ int sim_access(const char *path, int amode)
     int i;
     sim_step();
     i = find_node(path);
-    if (i < 0) return -1;
+    if (i < 0 || nodes[i].dangling) { errno = ENOENT; return -1; }
     if ((amode & R_OK) && !(nodes[i].mode & 0400)) { errno = EACCES; return -1; }
     return 0;
 }
@@ -232,6 +247,7 @@ int sim_stat(const char *path, struct stat *st)
     sim_step();
     i = find_node(path);
     if (i < 0) return -1;
+    if (nodes[i].dangling) { probe_hit("stat_failed_for_a_listed_name"); tr_printf("stat %.60s -> ENOENT (listed, gone)", path); errno = ENOENT; return -1; }      /* (what the caller's struct stat held before stays as it was) */
     memset(st, 0, sizeof(*st));
     st->st_mode = (mode_t)((nodes[i].isdir ? S_IFDIR : S_IFREG) | nodes[i].mode);
     st->st_size = (off_t)nodes[i].len;
@@ -332,7 +348,7 @@ struct dirent *sim_readdir(DIR *dp)
     base = strrchr(nodes[d->idx[d->pos]].path, '/');
     memset(&d->de, 0, sizeof(d->de));
     snprintf(d->de.d_name, sizeof(d->de.d_name), "%s", base ? base + 1 : "");
-    d->de.d_type = nodes[d->idx[d->pos]].isdir ? DT_DIR : DT_REG;
+    d->de.d_type = nodes[d->idx[d->pos]].dangling ? DT_LNK : nodes[d->idx[d->pos]].isdir ? DT_DIR : DT_REG;
     d->pos++;
     return &d->de;
 }
@@ -392,7 +408,12 @@ int sim_fchmod(int fd, mode_t m)
 }
 /* near relatives of calls that are already simulated: the same thing under another name must not fall through to the real system */
 int sim_mkostemp(char *tmpl, int flags) { (void)flags; return sim_mkstemp(tmpl); }
-int sim_lstat(const char *path, struct stat *st) { return sim_stat(path, st); }
+int sim_lstat(const char *path, struct stat *st)
+{
+    int i = find_node(path);
+    if (i >= 0 && nodes[i].dangling) { memset(st, 0, sizeof(*st)); st->st_mode = S_IFLNK | 0777; st->st_nlink = 1; return 0; }
+    return sim_stat(path, st);
+}
 long sim_random(void) { return (long)sim_rand(); }
 void sim_srandom(unsigned s) { (void)s; }
 
